@@ -3,6 +3,7 @@
    x <= MAX_CHAR and 0xFFFD otherwise.  None results are Rust panics and produce no string. *)
 Require Import Base CharSet Partition LoopRange Regex Inclusion Constructors Deriv Explore.
 Require Import Literal LiteralProofs StrSearch StrSearchProofs StrConv StrConvProofs GoodProofs.
+Require Import Sem ManagerProofs ConstructorProofs.
 Open Scope N_scope.
 
 (* constructors: From<&str>/String (list of Rust code points), From<char>, From<u32>, From<&[u32]>, From<Vec<u32>> *)
@@ -65,6 +66,13 @@ Print Assumptions C17_str_replace_re_all.
 Theorem C17_get_string : forall fuel m e m' w, get_string fuel m e = Some (m', Some w) -> goodw w.
 Proof. exact get_string_good. Qed.
 Print Assumptions C17_get_string.
+
+(* a good string (of any length an SmtString can have: at most i32::MAX < u32::MAX characters) can be
+   turned into a regular expression without panicking, from any well-formed manager *)
+Theorem C17_str_total : forall m w, wf m -> goodw w -> N.of_nat (length w) <= U32MAX ->
+  exists m' t, mstr m w = Some (m', t).
+Proof. exact mstr_total. Qed.
+Print Assumptions C17_str_total.
 
 Example C17_example :
   from_str [97; 196608; 1114111; 196607] = [97; 65533; 65533; 196607] /\ from_u32 4294967295 = [65533] /\
